@@ -200,7 +200,8 @@ fn gen_run(rng: &mut Rng) -> Value {
     let after = rng.below(4) as usize;
     let mut toks = vec![];
     for i in 0..before { toks.push(json!([1, i, 0, i, 0, -1, 0])); }
-    for i in 0..k { toks.push(json!([3, 7, 0, 10 + i, 0, -1, 0])); }
+    let zero_at = rng.below(k as u64) as usize;     // one token of the run maps to the origin 0:0 of its source
+    for i in 0..k { toks.push(json!([3, 7, 0, if i == zero_at { 0 } else { 10 + i }, 0, -1, 0])); }
     for i in 0..after { toks.push(json!([3, 8 + i, 0, 500 + i, 0, -1, 0])); }
     json!({"op": "lookup", "toks": toks, "nsrc": 1, "nnm": 0, "how": "new",
            "qs": [[3, 7], [3, 6], [3, 8], [3, 100], [4, 0], [1, 0], [0, 0], [2, 5]]})
